@@ -239,27 +239,26 @@ def _rows_check(ctx, f, x, what, pick=None):
 def _unit_isolation(ctx, what, call, params, x, units, perturb_x=True):
   """call(params, x) -> (B, units).  Perturbing unit v's parameters/inputs must
   leave every other unit's output untouched."""
-  rng = np.random.RandomState(units * 7 + len(params))
   base = np.asarray(call(params, x), dtype=np.float64)
-  v = int(rng.randint(units))
-  p2 = []
-  for (arr, axis) in params:
-    a = arr.copy()
-    if axis is not None:
-      sl = [slice(None)] * a.ndim
-      sl[axis] = v
-      a[tuple(sl)] = a[tuple(sl)] * -3.0 + 7.0
-    p2.append((a, axis))
-  x2 = x
-  if perturb_x and x.ndim >= 2 and x.shape[1] == units:
-    x2 = x.copy()
-    x2[:, v] = x2[:, v] * 0.5 + 0.3
-  pert = np.asarray(call(p2, x2), dtype=np.float64)
-  others = [u for u in range(units) if u != v]
-  e = float(np.nanmax(np.abs(pert[:, others] - base[:, others]))) if others else 0.0
   tol = 4 * core.F32_EPS * core.scale_of(base)
-  ctx.check("layer/unit-isolated", e <= tol, "%s: changing unit %d's parameters/inputs moves other units' outputs by %.3g" % (what, v, e),
-            info={"unit": v}, ratio=e / tol)
+  for v in range(units):            # every unit in turn: a leak from one particular unit (say unit 0) must not be missed
+    p2 = []
+    for (arr, axis) in params:
+      a = arr.copy()
+      if axis is not None:
+        sl = [slice(None)] * a.ndim
+        sl[axis] = v
+        a[tuple(sl)] = a[tuple(sl)] * -3.0 + 7.0
+      p2.append((a, axis))
+    x2 = x
+    if perturb_x and x.ndim >= 2 and x.shape[1] == units:
+      x2 = x.copy()
+      x2[:, v] = x2[:, v] * 0.5 + 0.3
+    pert = np.asarray(call(p2, x2), dtype=np.float64)
+    others = [u for u in range(units) if u != v]
+    e = float(np.nanmax(np.abs(pert[:, others] - base[:, others]))) if others else 0.0
+    ctx.check("layer/unit-isolated", e <= tol, "%s: changing unit %d's parameters/inputs moves other units' outputs by %.3g" % (what, v, e),
+              info={"unit": v}, ratio=e / tol)
 
 
 def _run_layer(ctx, case, st):
@@ -368,16 +367,27 @@ def _run_layer(ctx, case, st):
     cpc = st["cpc"]
     nk = int(rng.choice([3, 5]))
     mono = str(rng.choice(["none", "increasing"]))
+    cmin = bool(mono == "increasing" and rng.rand() < .4)
+    cmax = bool(mono == "increasing" and rng.rand() < .4)
+    cyc = bool(mono == "none" and rng.rand() < .3)
+    missing = str(rng.choice(["no", "fixed", "derived", "derived"]))
+    miv = -1.0 if missing != "no" else None
+    mov = 0.25 if missing == "fixed" else None
+    out_size = nk - cmin - cmax - cyc + (missing == "derived")
     kin = rng.normal(size=(B, units, nk - 2)).astype(np.float32)
-    kout = rng.normal(size=(B, units, nk)).astype(np.float32)
+    kout = (rng.normal(size=(B, units, out_size)) * 2).astype(np.float32)
     x = rng.uniform(-0.2, 1.2, size=(B, units)).astype(np.float32)
+    if miv is not None:
+      x[rng.rand(B, units) < .4] = miv          # missing inputs in any unit
+    kwp = dict(units=units, monotonicity=mono, clamp_min=cmin, clamp_max=cmax, is_cyclic=cyc, missing_input_value=miv, missing_output_value=mov)
+    ctx.cls("pwl_fn:missing=" + missing, "pwl_fn:clamp=%d%d" % (cmin, cmax), "pwl_fn:cyclic=%s" % cyc)
 
     def f(arrs):
-      return cpc.pwl_calibration_fn(tf.constant(arrs[0]), tf.constant(arrs[1]), tf.constant(arrs[2]), units=units, monotonicity=mono).numpy()
+      return cpc.pwl_calibration_fn(tf.constant(arrs[0]), tf.constant(arrs[1]), tf.constant(arrs[2]), **kwp).numpy()
     spread = _rows_check(ctx, f, [x, kin, kout], "pwl_calibration_fn")
 
     def call(params, xx):
-      return cpc.pwl_calibration_fn(tf.constant(xx), tf.constant(params[0][0]), tf.constant(params[1][0]), units=units, monotonicity=mono).numpy()
+      return cpc.pwl_calibration_fn(tf.constant(xx), tf.constant(params[0][0]), tf.constant(params[1][0]), **kwp).numpy()
     _unit_isolation(ctx, "pwl_calibration_fn", call, [(kin, 1), (kout, 1)], x, units)
   elif kind == "cdf_fn":
     ccdf = st["ccdf"]
